@@ -23,6 +23,10 @@ enum : unsigned { PR = 1, PW = 2, PX = 4 };
 
 struct Range { uint64_t lo, hi; unsigned perm; const char* name; };
 
+// Every supported instruction form (63). Deliberately absent although "nearby": add (the constant rv64::ADD is
+// never used by an emitter and every `add` of the runtime assembles to c.add), c.fld / c.sd / c.sw / c.lwsp /
+// c.swsp / c.addi4spn / c.srai / c.subw / c.addw / c.jalr, jalr, all other loads/stores/branches, OP-32 other
+// than addiw, div/rem/mulhsu, F (single), fused multiply-add, conversions other than fcvt.d.w, all A, Zb*, V.
 // Every supported instruction form. Names are the LLVM "no-aliases" mnemonics so that the trace can be
 // cross-checked against llvm-objdump at build time.
 #define RV64EMU_FORMS(X) \
@@ -30,13 +34,13 @@ struct Range { uint64_t lo, hi; unsigned perm; const char* name; };
 	X(BEQ, "beq") X(BNE, "bne") X(BLTU, "bltu") \
 	X(LW, "lw") X(LD, "ld") X(LWU, "lwu") X(SD, "sd") \
 	X(ADDI, "addi") X(SLLI, "slli") X(SRLI, "srli") X(ANDI, "andi") X(ADDIW, "addiw") \
-	X(ADD, "add") X(SUB, "sub") X(SLL, "sll") X(SRL, "srl") X(XOR, "xor") X(OR, "or") X(AND, "and") \
+	X(SUB, "sub") X(SLL, "sll") X(SRL, "srl") X(XOR, "xor") X(OR, "or") X(AND, "and") \
 	X(MUL, "mul") X(MULH, "mulh") X(MULHU, "mulhu") \
 	X(FLD, "fld") X(FSD, "fsd") \
 	X(FADD_D, "fadd.d") X(FSUB_D, "fsub.d") X(FMUL_D, "fmul.d") X(FDIV_D, "fdiv.d") X(FSQRT_D, "fsqrt.d") \
 	X(FSGNJ_D, "fsgnj.d") X(FCVT_D_W, "fcvt.d.w") X(FMV_X_D, "fmv.x.d") X(FMV_D_X, "fmv.d.x") \
 	X(CSRRW, "csrrw") \
-	X(C_FLD, "c.fld") X(C_LW, "c.lw") X(C_LD, "c.ld") X(C_FSD, "c.fsd") X(C_SD, "c.sd") \
+	X(C_LW, "c.lw") X(C_LD, "c.ld") X(C_FSD, "c.fsd") \
 	X(C_NOP, "c.nop") X(C_ADDI, "c.addi") X(C_ADDIW, "c.addiw") X(C_LI, "c.li") X(C_ADDI16SP, "c.addi16sp") X(C_LUI, "c.lui") \
 	X(C_SRLI, "c.srli") X(C_ANDI, "c.andi") X(C_SUB, "c.sub") X(C_XOR, "c.xor") X(C_OR, "c.or") X(C_AND, "c.and") \
 	X(C_J, "c.j") X(C_BEQZ, "c.beqz") X(C_BNEZ, "c.bnez") \
@@ -77,6 +81,10 @@ struct Machine {
 	// Optional execution map: one byte per 2-byte parcel of [execBase, execBase+2*execParcels):
 	// 0 = never executed, otherwise Form+1 of the instruction that started there.
 	uint8_t* execMap = nullptr; uint64_t execBase = 0; uint64_t execParcels = 0;
+
+	// Optional store tracking: 64-byte lines of [trackLo, trackLo+trackSize) written by the guest are flagged
+	// in trackBitmap (one byte per line) and listed once in trackList.
+	uint64_t trackLo = 0, trackSize = 0; uint8_t* trackBitmap = nullptr; std::vector<uint32_t> trackList;
 
 	static constexpr uint64_t ReturnMagic = 0x00005EED0000C0DEull;   // x1 at entry; never inside a range
 
